@@ -6,9 +6,12 @@ META = dict(
     trusted_base=['clang 14 front end', 'engine/cxx2c.py', 'cbmc 6.11.0 --dfcc', 'C model of std::optional / std::array (models in generated prelude)'],
     assumptions=['configuration -DNDEBUG, STL enabled; operand kind utl::static_vector<size_t,8> (result kind hybrid_ndarray<size_t,8,1> as chosen by the library)'],
     explanation='Deciding obligations: impl::broadcast_shape and impl::shape_broadcast_to (real instantiated code) proved equal to the NumPy rule; the algebraic laws (commutative, idempotent, absorbing, scalar-neutral, associative on positive extents) are lemmas over the spec functions for ranks 0..8 and all 64-bit extents. Observation (not a finding under the property as quantified over positive extents): with a zero extent the max rule gives (0,)+(1,) -> (1,) where NumPy gives (0,), and grouping then matters.',
-    not_covered=['index::broadcast_to element mapping (detour through a flat offset; needs L1 compositionally)', 'variadic fold beyond two operands (follows from the two-operand contract + associativity lemma; the maybe-lifting glue is not under contract)', 'compile-time constant / clipped shapes (type level)', 'broadcast_arrays view glue'],
+    not_covered=['index::broadcast_to element mapping beyond the bounded unit (rank <= 4, extents <= 4)', 'variadic fold beyond two operands (follows from the two-operand contract + associativity lemma; the maybe-lifting glue is not under contract)', 'compile-time constant / clipped shapes (type level)', 'broadcast_arrays view glue'],
 )
 UNITS = [
+    Unit('broadcast_to_index.bounded', 'c06', 'verif_broadcast_to_index', mode='bp', plain=True, unwind=10, unwind_loops={'.': 7}, timeout=1500, object_bits=12,
+         bounded='rank <= 4, extents 1..4 (all loops unwound; the detour through a flat offset needs mixed-radix reasoning that SAT does not do unboundedly)',
+         clause='an array broadcast to a shape has at index i the source element at i with stretched and prepended axes dropped'),
     Unit('F.broadcast_shape.bp', 'c06', 'verif_f_broadcast_shape', mode='bp', unwind=10, clause='fixed-size operands (template_for branch): succeeds exactly when aligned extents are equal or 1; per-axis maximum'),
     Unit('F.broadcast_shape32.bp', 'c06', 'verif_f_broadcast_shape32', mode='bp', unwind=10, clause='fixed-size operands of different rank'),
     Unit('shape_broadcast_to.bp', 'c06', 'verif_shape_broadcast_to', mode='bp', unwind=10, clause='broadcast_to succeeds iff each source extent equals the target extent or is 1; stretched/prepended axes are flagged free'),
